@@ -132,7 +132,7 @@ func attrBody(b *hclsyntax.Body, toks []hclsyntax.Token, lo, hi int) *aBody {
 		ls := fi
 		for ls-1 >= lo && isComment(toks[ls-1]) {
 			j := ls - 1
-			if j-1 >= lo && !isComment(toks[j-1]) && toks[j-1].Type != hclsyntax.TokenNewline &&
+			if j-1 >= 0 && !isComment(toks[j-1]) && toks[j-1].Type != hclsyntax.TokenNewline &&
 				toks[j-1].Range.End.Line == toks[j].Range.Start.Line {
 				break // line comment of the previous item
 			}
